@@ -4,6 +4,7 @@ import MosnVerif.Lemmas.DubboThrift
 import MosnVerif.Lemmas.Tars
 import MosnVerif.Lemmas.HttpUri
 import MosnVerif.Lemmas.Relay
+import MosnVerif.Model.Http1Msg
 /-!
 # C01 — forwarding fidelity (property theorems only)
 
@@ -389,6 +390,15 @@ example : HttpUri.buildUrl exOracles (HttpUri.inject exOracles "/a//%2Fb" "x=1&y
 example : HttpUri.buildUrl exOracles (HttpUri.rewrite (HttpUri.inject exOracles "/a//%2Fb" "") "/new") = "/new!" := by decide
 -- negation witness for the unrestricted statement: "/a?" is forwarded as "/a"
 example : HttpUri.buildUrl exOracles (HttpUri.inject exOracles "/a" "") ≠ HttpUri.expected "/a" true "" := by decide
+
+/-! ## HTTP/1 header set through the proxy (fasthttp is a black box; this is the recorded rewriting model) -/
+
+/-- **http1_no_invented_header**: with the regenerated forwarding flags (`SetNoDefaultContentType(true)` on both
+forwarding paths) the recorded rewriting model adds no header to any forwarded request or response, whatever the
+method, header list and body. -/
+theorem http1_no_invented_header (method : String) (m : Http1Msg.Msg) :
+    Http1Msg.reqAdds method m = [] ∧ Http1Msg.respAdds m = [] := by
+  simp [Http1Msg.reqAdds, Http1Msg.respAdds, Gen.C01HttpUri.reqNoDefaultContentType, Gen.C01HttpUri.respNoDefaultContentType]
 
 /-! ## TCP relay (streamproxy): two FIFO write queues with close-with-flush -/
 
